@@ -149,7 +149,8 @@ PROPS = {
     'C19': {
         'level': 'other',
         'proof': [('contracts.criteria', None)],
-        'bounded': [],
+        'bounded': [('contracts.criteria', 'src/pharmpy/modeling/results.py:_categorize_parameters',
+                     'example models pheno and moxo and five transformations of each')],
         'custom': [('contracts.b_rank', 'bounded_rank_models'), ('contracts.b_rank', 'bounded_tool_statistics')],
         'assumptions': [PY_SUBSET, FLOAT_AS_REAL],
         'explanation': 'AIC/BIC formulas and the likelihood-ratio test functions proved against their '
